@@ -293,6 +293,19 @@ def run(repo: Repo, rep: Report, tier: str) -> None:
                 passes10.append(cur)
                 fan.add(norm(cur.iter)[:40])
                 break
+    # the fan-out table the pass walks has an entry for every (source, sink) edge: an edge left out (because its name has a single source at that sink, say) is a
+    # source that joins two sinks without the pass knowing
+    for lp10 in passes10:
+        tnames = [x.id for x in ast.walk(lp10.iter) if isinstance(x, ast.Name)]
+        fills = [c for c in calls_in(pw10.node, "add") if isinstance(c.func, ast.Attribute) and isinstance(c.func.value, ast.Subscript) and isinstance(c.func.value.value, ast.Name)
+                 and c.func.value.value.id in tnames]
+        for c in fills:
+            st_c = c
+            while not isinstance(st_c, ast.stmt):
+                st_c = pm10[st_c]
+            gs10 = [(norm(t), pol) for t, pol in guard_chain(pw10, st_c, pm10)]
+            rep.check(not gs10, "C12-R10", "plan_wire_colors: every edge enters the fan-out table", "unconditional" if not gs10 else
+                      f"entered only under {[('' if p_ else 'not ') + g[:60] for g, p_ in gs10]}: a source left out of the table joins its sinks unnoticed", pw10.loc(c))
     rep.check(bool(passes10), "C12-R10", "plan_wire_colors separates a fanned-out source from the differing sources of its sinks", f"fan-out table(s) {sorted(fan)}; conflict pass present" if passes10 else
               "conflicts are built per sink only: sources that meet through a third source's fan-out stay on one colour", pw10.loc())
 
